@@ -481,4 +481,40 @@ def sparseApplyG (guarded : Bool) (v : Bytes → Bool) (root : PPath) : List (En
 def sparseApply (v : Bytes → Bool) (root : PPath) (entries : List (Entry × Bool)) (st : St) : Step :=
   sparseApplyG sparseGuarded v root entries st
 
+/-! ### `update_working_tree` over a list of tree changes of every kind -/
+
+inductive ChangeKind where
+  | add | modify | unchanged | copy | rename | delete
+  deriving DecidableEq, Repr
+
+def ChangeKind.name : ChangeKind → String
+  | .add => "ADD" | .modify => "MODIFY" | .unchanged => "UNCHANGED" | .copy => "COPY" | .rename => "RENAME"
+  | .delete => "DELETE"
+
+/-- the kinds whose OLD path the first loop removes / whose NEW entry the second loop writes / for which the write
+loop reaches `validate_path` (and `verify_leading_dirs`) before touching the disk — all three read from the source -/
+def deletedKind (k : ChangeKind) : Bool := uwtKindsDeleted.contains k.name
+def writtenKind (k : ChangeKind) : Bool := uwtKindsWritten.contains k.name
+def validatedKind (k : ChangeKind) : Bool := uwtKindsValidated.contains k.name
+
+/-- a tree change: kind, old path, new entry -/
+abbrev Change := ChangeKind × Bytes × Entry
+
+/-- the write loop over ALL changes: an entry of a written kind is written; its name is validated only if the
+source reaches `validate_path` for that kind (for a kind that is written but not validated the step runs with the
+trivial validator) -/
+def uwtWriteChanges (isEmpty : FS → PPath → Bool) (v : Bytes → Bool) (root : PPath) : List Change → St → Step
+  | [], st => (st, none)
+  | (k, _, e) :: cs, st =>
+    if writtenKind k then
+      (uwtEntryG uwtFreshCache gitlinkDirTestFollows isEmpty (if validatedKind k then v else fun _ => true) root e st).andThen
+        (uwtWriteChanges isEmpty v root cs)
+    else uwtWriteChanges isEmpty v root cs st
+
+/-- `update_working_tree(repo, old, new, change_iterator)` on the list of changes, whatever their kinds -/
+def updateWorkingTreeK (isEmpty : FS → PPath → Bool) (v : Bytes → Bool) (root : PPath) (changes : List Change)
+    (st : St) : Step :=
+  (deletePhase v root ((changes.filter (fun c => deletedKind c.1)).map (·.2.1)) st).andThen
+    (uwtWriteChanges isEmpty v root changes)
+
 end Dulwich.Checkout
